@@ -124,15 +124,9 @@ class YieldCounter:
                 return self.size_of(st, e.args[0])
             if nm in ("set", "frozenset", "fromkeys") and e.args:
                 # de-duplication: between 1 and |S| elements remain (every value attainable by choosing duplicates)
-                s_ = self.size_of(st, e.args[0])
-                if isinstance(s_, Lin):
-                    u = env.facts.fresh("distinct", exact=env.facts.is_exact(s_), integer=True)
-                    env.facts.add_le(u, s_)
-                    lo1 = self.amin(env, Lin.c(1), s_)
-                    if isinstance(lo1, Lin):
-                        env.facts.add_ge(u, lo1)
-                    return u
-                return s_
+                return self.distinct(env, self.size_of(st, e.args[0]))
+            if nm in ("values", "keys", "items") and isinstance(e.func, ast.Attribute) and not e.args:
+                return self.size_of(st, e.func.value)
             if nm in ("nlargest", "nsmallest") and len(e.args) >= 2:
                 k_ = evaluate(env, e.args[0])
                 s_ = self.size_of(st, e.args[1])
@@ -163,7 +157,24 @@ class YieldCounter:
             return self.size_of(st, e.generators[0].iter)
         if isinstance(e, (ast.List, ast.Tuple)):
             return Lin.c(len(e.elts))
+        if isinstance(e, (ast.DictComp, ast.SetComp)) and len(e.generators) == 1 and not e.generators[0].ifs:
+            g = e.generators[0]
+            key = e.key if isinstance(e, ast.DictComp) else e.elt
+            if isinstance(g.iter, ast.Call) and call_name(g.iter) == "enumerate" and g.iter.args and isinstance(g.target, ast.Tuple) \
+                    and isinstance(g.target.elts[0], ast.Name) and isinstance(key, ast.Name) and key.id == g.target.elts[0].id:
+                return self.size_of(st, g.iter.args[0])        # keyed by position: nothing collapses
+            return self.distinct(env, self.size_of(st, g.iter))  # keyed by a value: equal keys collapse
         return Opaque(f"size of {type(e).__name__}")
+
+    def distinct(self, env, s_: Any) -> Any:
+        if isinstance(s_, Lin):
+            u = env.facts.fresh("distinct", exact=env.facts.is_exact(s_), integer=True)
+            env.facts.add_le(u, s_)
+            lo1 = self.amin(env, Lin.c(1), s_)
+            if isinstance(lo1, Lin):
+                env.facts.add_ge(u, lo1)
+            return u
+        return s_
 
     def add(self, a: Any, b: Any) -> Any:
         if isinstance(a, Lin) and isinstance(b, Lin):
